@@ -25,12 +25,19 @@
                                prescribe an infinity at K·Y = −6177, e.g. 0.1^6177; the specification was
                                corrected to `flushOrRoundS m neg 1 (K·Y)` and no exclusion remains.)
   5. `pow_ten_half`            x = +10^K, K even, y = ±1/2 (any encodings): exactly 10^(±K/2), as `Spec.powSpecial` says
+     `pow_result_sign_of_rcpRange`, `pow_neg_base_int_of_rcpRange`
+                               finite non-zero x, finite y ∉ {0, ±1}, not (x < 0 ∧ y ∉ ℤ): EVERY result —
+                               shortcuts and general path, every mode byte — has the sign x < 0 ∧ y odd
+                               integer and is not NaN; the general path through `rcp` needs `PowPf.RcpRange`
+     `pow_finite_never_nan_of_rcpRange`
+                               finite x, y never give NaN except negative x with non-integer y
   6. `pow_special_correct`     ALL of the above and C18 (a)–(d) in one statement: whatever `Spec.powSpecial`
                                prescribes is what `PowWithMode` returns (valid mode byte, no exclusion)
 -/
 import D128.Props.C18
 import D128.Props.C02Quo
 import D128.Proofs.PowLadderAll
+import D128.Proofs.PowLadderSign
 set_option autoImplicit false
 
 namespace Props.C18b
@@ -157,6 +164,58 @@ theorem pow_neg_base_int_partial (d o : Gen.Decimal) (rm : UInt8) (xc : Nat) (xe
     ∃ oSig oExp dSig dExp, Gen.Decimal.PowWithMode d o rm =
       PowPf.finish rm true yn (oddIntQ (Spec.mag yc ye)) oSig oExp dSig dExp :=
   top_negint_partial d o rm xc xe yn yc ye hx hx0 hy hy0 hy1 hint
+
+/-- The sign of the result for finite non-zero x and finite y ∉ {0, ±1} (excluding x < 0 with y ∉ ℤ, which
+    gives NaN): EVERY value `PowWithMode` returns — through the power-of-ten shortcut, the square-root
+    shortcut or the general path `log → mul → epow → (rcp) → reduce192 → compose`, for every mode byte —
+    has sign bit `x < 0 ∧ y odd integer` and is not a NaN.  (Statement about returned values: that the
+    general path returns at all is the totality property C20.)
+    Proof without any accuracy analysis: `compose neg sig exp` is sign-faithful for every `sig` once
+    `0 ≤ exp ≤ 12287` (`PowPf.compose_sign_any`), `reduce192` returns `0 ≤ exp'` for every mode byte
+    (`PowPf.reduce192_range`), `epow` returns a non-zero significand (`PowPf.epow_sig_ne`).
+    OPEN OBLIGATION `hrcp : PowPf.RcpRange` ("the reciprocal of an `epow` result has a non-zero significand
+    and an exponent ≤ 13824"; true because an `epow` result is ≥ 1): no contract of `decomposed192.rcp` /
+    `epow` exists yet; it is used only on the branch that takes the reciprocal
+    (`PowPf.general_sign_norcp` is the unconditional statement for the other branch). -/
+theorem pow_result_sign_of_rcpRange (d o : Gen.Decimal) (rm : UInt8) (xn : Bool) (xc : Nat) (xe : Int)
+    (yn : Bool) (yc : Nat) (ye : Int) (r : Gen.Decimal) (hrcp : PowPf.RcpRange)
+    (hx : 𝔳[d] = .fin xn xc xe) (hx0 : xc ≠ 0) (hy : 𝔳[o] = .fin yn yc ye) (hy0 : yc ≠ 0)
+    (hy1 : Spec.mag yc ye ≠ 1) (hint : xn = false ∨ isIntQ (Spec.mag yc ye) = true)
+    (h : Gen.Decimal.PowWithMode d o rm = .ok r) :
+    Gen.Decimal.Signbit r = (xn && oddIntQ (Spec.mag yc ye)) ∧ Gen.Decimal.IsNaN r = false :=
+  top_fin_sign d o rm xn xc xe yn yc ye r hrcp hx hx0 hy hy0 hy1 hint h
+
+/-- negative finite x with an integer y ∉ {0, ±1}: the sign of every result is `(−1)^y` -/
+theorem pow_neg_base_int_of_rcpRange (d o : Gen.Decimal) (rm : UInt8) (xc : Nat) (xe : Int)
+    (yn : Bool) (yc : Nat) (ye : Int) (r : Gen.Decimal) (hrcp : PowPf.RcpRange)
+    (hx : 𝔳[d] = .fin true xc xe) (hx0 : xc ≠ 0) (hy : 𝔳[o] = .fin yn yc ye) (hy0 : yc ≠ 0)
+    (hy1 : Spec.mag yc ye ≠ 1) (hint : isIntQ (Spec.mag yc ye) = true)
+    (h : Gen.Decimal.PowWithMode d o rm = .ok r) :
+    Gen.Decimal.Signbit r = oddIntQ (Spec.mag yc ye) ∧ Gen.Decimal.IsNaN r = false := by
+  have := pow_result_sign_of_rcpRange d o rm true xc xe yn yc ye r hrcp hx hx0 hy hy0 hy1 (Or.inr hint) h
+  simpa using this
+
+/-- finite x and y never give a NaN, except negative non-zero x with a non-integer y (which gives the
+    NaN of `pow_neg_base_nonint`): every value returned for a valid mode byte is not a NaN.
+    (y = −1 goes through the division theorem `Props.C02.quo_correct`; `hrcp` as above.) -/
+theorem pow_finite_never_nan_of_rcpRange (d o : Gen.Decimal) (rm : UInt8) (m : Spec.Mode) (xn : Bool)
+    (xc : Nat) (xe : Int) (yn : Bool) (yc : Nat) (ye : Int) (r : Gen.Decimal) (hrcp : PowPf.RcpRange)
+    (hm : Spec.Mode.ofNat? rm.toNat = some m)
+    (hx : 𝔳[d] = .fin xn xc xe) (hy : 𝔳[o] = .fin yn yc ye)
+    (hexc : ¬ (xn = true ∧ xc ≠ 0 ∧ yc ≠ 0 ∧ isIntQ (Spec.mag yc ye) = false))
+    (h : Gen.Decimal.PowWithMode d o rm = .ok r) : Gen.Decimal.IsNaN r = false :=
+  top_fin_not_nan d o rm m xn xc xe yn yc ye r hrcp (Props.C02.quo_correct (Gen.one false) d rm m hm)
+    hx hy hexc h
+
+/-- hypotheses of `pow_result_sign_of_rcpRange` (apart from the open obligation): x = −3, y = 5 -/
+example (hrcp : PowPf.RcpRange) (r : Gen.Decimal)
+    (h : Gen.Decimal.PowWithMode ⟨3, 12700150949184798720⟩ ⟨5, 3476778912330022912⟩ 0 = .ok r) :=
+  pow_result_sign_of_rcpRange ⟨3, 12700150949184798720⟩ ⟨5, 3476778912330022912⟩ 0 true 3 0 false 5 0 r hrcp
+    (by decide) (by decide) (by decide) (by decide) (by rw [Spec.mag, SpecRound.pow10_eq_zpow]; norm_num)
+    (Or.inr (by
+      have := mag_strip 5 0 0
+      rw [show 5 * 10 ^ 0 = 5 by norm_num] at this
+      rw [this, isIntQ_strip 5 _ (by norm_num)]; rfl)) h
 
 /-! ## 4. x a power of ten, y a non-negative integer -/
 
